@@ -2,7 +2,8 @@
 SPECIFICATION Spec
 CONSTANTS Names <- NamesSmall
           Types <- TypesAll
-          Bodies = {"x"}
+          Bodies <- BodyX
+          Readers <- ReadPlain
           Modes <- ModesTwo
           Mtimes <- MtimesTwo
           MaxNodes = 2
